@@ -171,7 +171,11 @@ class FFDirector(SectionLineParser):
             # add FF wide citations
             self.current_link.citations.update(self.citations)
             self.current_link.make_edges_from_interactions()
-            self.force_field.links.append(self.current_link)
+            # A link stays the current link until the next one starts; this
+            # method can run several times in between.
+            links = self.force_field.links
+            if not links or links[-1] is not self.current_link:
+                links.append(self.current_link)
 
         if self.current_modification is not None:
             # add FF wide citations
